@@ -374,6 +374,7 @@ fn with_pipe_cell(variant: usize, e: &mut Emit) {
         0 => vec![SIG, 100],
         1 => vec![SIG, libc::SIGKILL],
         2 => vec![SIG, libc::SIGWINCH, -3],
+        4 => vec![SIG, libc::SIGUSR2, libc::SIGWINCH],
         _ => vec![SIG],
     };
     let out = std::panic::catch_unwind(std::panic::AssertUnwindSafe(|| SignalDelivery::with_pipe(r, w, SignalOnly::default(), &list)));
@@ -383,7 +384,13 @@ fn with_pipe_cell(variant: usize, e: &mut Emit) {
         Err(_) => "panic",
     };
     e.line(&format!("outcome={}", outcome));
-    if variant == 3 {
+    if variant == 4 {
+        // one of the watched signals (not the highest-numbered) loses its actions behind the instance's
+        // back through the registry's own (deprecated) unregister_signal; the teardown still removes the rest
+        #[allow(deprecated)]
+        signal_hook_registry::unregister_signal(SIG);
+    }
+    if variant >= 3 {
         // accepted: drop the instance, then the same observations
         drop(out);
     }
@@ -393,6 +400,10 @@ fn with_pipe_cell(variant: usize, e: &mut Emit) {
     for _ in 0..3 {
         unsafe {
             libc::raise(SIG);
+            if variant == 4 {
+                libc::raise(libc::SIGUSR2);
+                libc::raise(libc::SIGWINCH);
+            }
         }
     }
     e.line(&format!("later_wakes={}", counters::wakes() - w0));
@@ -503,7 +514,7 @@ pub fn run(tier: Tier) -> BResult {
     for n in [1usize, 300, 3000] {
         cells.push(Cell::IterBurst(n));
     }
-    for v in 0..4 {
+    for v in 0..5 {
         cells.push(Cell::WithPipe(v));
     }
     let cells2 = cells.clone();
@@ -572,17 +583,17 @@ pub fn run(tier: Tier) -> BResult {
             }
             Cell::WithPipe(v) => {
                 transitions += 5;
-                let names = ["list [accepted, refused by the OS]", "list [accepted, forbidden]", "list [accepted, accepted, negative]", "accepted list, instance dropped"];
+                let names = ["list [accepted, refused by the OS]", "list [accepted, forbidden]", "list [accepted, accepted, negative]", "accepted list, instance dropped", "three signals accepted, unregister_signal of the lowest one through the registry, instance dropped"];
                 case = json!({"kind": "write end handed to SignalDelivery::with_pipe", "history": names[*v]});
                 *classes.entry(format!("with_pipe:{}", names[*v])).or_insert(0) += 1;
                 distinct.insert(format!("withpipe{}{}", v, p.find("outcome=").unwrap_or("")));
-                let want = ["err", "panic", "panic", "ok"][*v];
+                let want = ["err", "panic", "panic", "ok", "ok"][*v];
                 if p.fate != Fate::Exited(0) || !p.has("done") {
                     bad = Some(format!("child {}: {:?}", p.fate.describe(), p.lines.last()));
                 } else if p.find("outcome=") != Some(want) {
                     bad = Some(format!("outcome {} (expected {})", p.find("outcome=").unwrap_or(""), want));
                 } else if p.find("closed=") != Some("1") || p.find("peer_sees=") != Some("eof") {
-                    bad = Some(format!("the write end handed over is still open after the {} (descriptor closed: {}, its peer sees {})", if *v == 3 { "instance was dropped" } else { "constructor refused the list" }, p.find("closed=").unwrap_or(""), p.find("peer_sees=").unwrap_or("")));
+                    bad = Some(format!("the write end handed over is still open after the {} (descriptor closed: {}, its peer sees {})", if *v >= 3 { "instance was dropped" } else { "constructor refused the list" }, p.find("closed=").unwrap_or(""), p.find("peer_sees=").unwrap_or("")));
                 } else if p.find("close_calls=") != Some("1") {
                     bad = Some(format!("close() was called {} times on the write end", p.find("close_calls=").unwrap_or("")));
                 } else if p.find("later_wakes=") != Some("0") {
